@@ -10,6 +10,7 @@ Bind : fixture parser modules (appended to the udparsers / srcparsers / calloutp
        (against the stand-alone decoders), CalloutModuleName ...
 """
 import json
+import os
 import random
 
 from .. import encode, genpel, pelrun, project, seams, udrun
@@ -61,6 +62,13 @@ def cases(tier, seed, info):
             for ver in (1, 2, 0, 3):
                 for L in (0, 1, 8, 24, 40, 100):
                     items.append(dict(t='m2c00', sub=sub, ver=ver, L=L, k=rep))
+        # content the decoders have something to say about - made from the tables of EITHER drawer type, whatever the
+        # version of the section says: full-length history logs, ILOG entries the two tables describe differently
+        for sub in (72, 73):
+            for ver in (1, 2):
+                for made_for in (1, 2):
+                    for j in range(2):
+                        items.append(dict(t='m2c00', sub=sub, ver=ver, L='real', made_for=made_for, k=rep * 2 + j))
         for creator in ('X', 'O', 'B', 'Z'):
             for proc in ('FIX0001', 'FIXBOOM', 'FIXEMPT', 'FIXJUNK', 'BMC0001', 'BMC0008', 'NOSUCH1',
                          'FIXB%03d' % ((rep * 7 + 1) % 24), 'FIXB%03d' % ((rep * 7 + 4) % 24), 'FIXB%03d' % ((rep * 7 + 6) % 24)):
@@ -277,10 +285,26 @@ def _m2c00(rng, it):
     from io_drawer.ilog import parse_ilog_data
     from io_drawer.trace import parse_trace_data
     from pel.hexdump import hexdump
-    payload = genpel.rbytes(rng, it['L'])
-    if it['sub'] == 84 and it['L'] >= 40:
+    if it['L'] == 'real':
+        from . import c14
+        from .. import drawer
+        if it['sub'] == 72:
+            payload = [rng.choice([0, 0, rng.randrange(256)]) for _ in range(46)] + genpel.rbytes(rng, 18)
+        else:
+            table = drawer.read_pte_table(os.path.join(drawer.io_dir(), ['mex_pte.h', 'nimitz_pte.h'][it['made_for'] - 1]))[0]
+            other = drawer.read_pte_table(os.path.join(drawer.io_dir(), ['nimitz_pte.h', 'mex_pte.h'][it['made_for'] - 1]))[0]
+            theirs = {e['pattern'].upper(): e['msg'] for e in other}
+            differing = [i for i, e in enumerate(table) if theirs.get(e['pattern'].upper(), e['msg']) != e['msg']]
+            lo = max(0, rng.choice(differing) - rng.randrange(6)) if differing and rng.random() < .8 else rng.randrange(len(table))
+            payload = c14.data_for(rng, table, lo, lo + 8)
+            payload = payload[: min(len(payload) - len(payload) % 8, 8 * 40)]
+    else:
+        payload = genpel.rbytes(rng, it['L'])
+    if it['sub'] == 84 and it['L'] != 'real' and it['L'] >= 40:
         payload[:4] = [2, 0x20, 1, 0x42]
     mv = memoryview(bytes(payload))
+    if it['L'] == 'real' and it['k'] % 2:
+        m2.parseUDToJson(it['sub'], 3 - it['ver'], mv)        # the same content was shown for the other drawer type before
     out = m2.parseUDToJson(it['sub'], it['ver'], mv)
     rec = dict(family='C18', kind='m2c00', shape_ok=isinstance(out, str), sub=it['sub'], ver=it['ver'],
                payload=payload, is_object=False, keys=[], lines=[], standalone=[], has_error=False, what='m2c00')
@@ -307,12 +331,17 @@ def _m2c00(rng, it):
     if payload and it['sub'] not in (72, 73, 84):
         alone = hexdump(mv)
     elif payload and dt:
-        if it['sub'] == 72:
-            alone = parse_hlog_data(mv, dt[0].get_header_file_path())
-        elif it['sub'] == 73:
-            alone = parse_ilog_data(mv, dt[0].get_header_file_path())
+        # the stand-alone decoder of that drawer type, run in a process that has decoded nothing else
+        import subprocess
+        from ..framework import REPO, VERIF
+        p = subprocess.run(['/venv/bin/python', os.path.join(VERIF, 'harness', 'drawer_fresh.py')],
+                           input=json.dumps(dict(repo=REPO, sub=it['sub'], ver=it['ver'], hex=bytes(payload).hex())),
+                           stdout=subprocess.PIPE, stderr=subprocess.PIPE, text=True, timeout=60,
+                           env=dict(os.environ, PYTHONDONTWRITEBYTECODE='1', PYTHONWARNINGS='ignore'))
+        if p.returncode == 0:
+            alone = json.loads(p.stdout.strip().splitlines()[-1])['lines']
         else:
-            alone = parse_trace_data(mv, dt[0].get_trace_string_file_path())
+            alone = ['stand-alone decoder failed: ' + p.stderr.strip().splitlines()[-1][:120]] if p.stderr.strip() else ['failed']
     rec['standalone'] = [project.cp(x) for x in alone]
     if not payload:
         # nothing to decode: an empty list under the routed key (or Data)
